@@ -265,18 +265,22 @@ def run(r):
     from .. import constfold as _cf
     _cf._module_table.program = r.P
 
+    GUARDS = {}      # (column, event, k-th unrolled instance) -> guards of the store with the loop variables of that instance substituted
+
     def stores(summ, pc, table_of=None):
         out = {}
         tables = set()
         for e in summ.events_of("setitem"):
             if table_of is not None and not table_of(strip_all(e["obj"])):
                 continue        # stores into local lookup tables are not stores into the frame
-            for asg, (idx, val, obj) in unroll(summ, e, [e["index"], e["value"], e["obj"]]):
+            gts = [g for g, _ in e.ctx.guards]
+            for asg, (idx, val, obj, *gun) in unroll(summ, e, [e["index"], e["value"], e["obj"]] + gts):
                 from ..nnabs import simplify
                 idx, val = simplify(strip_all(idx)), simplify(strip_all(val))
                 tables.add(strip_all(obj))
                 key = idx[2] if is_const(idx) else show(idx, 40)
                 out.setdefault(key, []).append((subst(val, pc), subst(strip_all(obj), pc), e))
+                GUARDS[(key, id(e), len(out[key]) - 1)] = [(subst(simplify(strip_all(g_)), pc), pol_) for g_, (_, pol_) in zip(gun, e.ctx.guards)]
         return out, tables
     res_tables = {strip_all(leaf) for g, leaf in leaves(lift_ite(strip_all(s.ret))) if head(strip(leaf)) != "raise"}
     code_st, code_tables = stores(s, pcan, table_of=lambda o: o in res_tables or not _is_local_dict(o))
@@ -291,7 +295,7 @@ def run(r):
     rws = std_rewrites() + [series_map, canon_binders]
     TABLE = ("unbound", "TABLE")
     for col in sorted(set(code_st) & set(spec_st)):
-        for val, obj, e in code_st[col]:
+        for k_inst, (val, obj, e) in enumerate(code_st[col]):
             w = where_of(r.P, s.func, e.node)
             v = subst(val, {obj: TABLE})
             sv = spec_st[col][0][0]
@@ -305,6 +309,17 @@ def run(r):
             # ... and by nothing else than the column being present: a condition on the options or on the cells decides for which inputs the
             # column is standardised at all - whether the skipped inputs are fixed points of the standardiser is not for this analysis to say
             table_params = {("param", f"#{[x[0] for x in s.params].index(n_)}") for n_ in ("df", "df_old", "col_mapper") if n_ in [x[0] for x in s.params]}
+            # the presence test, with this instance's loop variables filled in, must be about this very column of this very table
+            for g_u, pol_u in [(a_, p_) for gg, pp in GUARDS.get((col, id(e), k_inst), []) for a_, p_ in _lits(gg, pp)]:
+                g_u = strip_all(g_u)
+                if head(g_u) == "cmp" and g_u[1] in ("in", "notin"):
+                    from ..nnabs import simplify as _simp
+                    lhs, rhs = _simp(g_u[2]), g_u[3]
+                    rhs_t = rhs[1] if head(rhs) == "attr" and rhs[2] == "columns" else rhs
+                    if is_const(lhs) and lhs[2] != col and rhs_t == obj:
+                        rep.ob("C18-COLS", q, False, f"column {col} is rewritten where it is present", w, expected=f"if '{col}' in table.columns", found=f"presence of '{lhs[2]}' is tested instead", key=f"presence guard column {col}")
+                    elif is_const(lhs) and lhs[2] == col and rhs_t != obj and {x for x in walk(rhs) if x[0] == "param"} <= table_params:
+                        rep.ob("C18-COLS", q, False, f"column {col} is rewritten where it is present in the table being standardised", w, expected=f"if '{col}' in table.columns", found=show(rhs, 60), key=f"presence guard table {col}")
             for g, pol in gl:
                 ps = {x for x in walk(g) if x[0] == "param"}
                 if head(g) == "cmp" and g[1] in ("in", "notin") and ps <= table_params and ((g[1] == "in") != pol):
@@ -344,6 +359,34 @@ def run(r):
         return head(t) == "call" and head(strip(t[1])) == "attr" and strip(t[1])[2] == "copy" and not t[2]
     rep.ob("C18-COLS", q, all(fresh_copy(l) for l in resl) and bool(resl), "the result is df.copy(), renamed by col_mapper when given (row count, order, index and other columns preserved)", where_of(r.P, s.func, s.func.node),
            expected="df.copy().rename(columns=col_mapper)", found="; ".join(show(l, 60) for l in resl[:2]), key="result table")
+    # ... a copy of the table the caller passed: df, or df_old when that (deprecated) parameter is the one given
+    DF, DFO = ("param", "df"), ("param", "df_old")
+    want_base = ("ite", ("cmp", "isnot", DFO, NONE), DFO, DF)
+    one_given = ("or", (("and", (("cmp", "is", DF, NONE), ("cmp", "isnot", DFO, NONE))), ("and", (("cmp", "isnot", DF, NONE), ("cmp", "is", DFO, NONE)))))
+    bases, seen_b = False, set()
+    for g_, l in leaves(lift_ite(strip_all(s.ret))):
+        if head(strip(l)) == "raise":
+            continue
+        path = tuple(c_ if pol_ else ("un", "not", c_) for c_, pol_ in g_)
+        for x in walk(strip_all(l)):
+            if not (head(x) == "call" and head(strip(x[1])) == "attr" and strip(x[1])[2] == "copy" and not x[2] and any(y in (DF, DFO) for y in walk(strip(x[1])[1]))):
+                continue
+            b_ = strip(x[1])[1]
+            bases = True
+            try:
+                mb, _ = compare_trees(lift_ite(strip_all(b_)), lift_ite(want_base), lambda a_, b2_: strip_all(a_) == strip_all(b2_), assume=("and", (one_given,) + path))
+            except AnalysisBroken:
+                mb = None
+            k_ = (repr(b_), bool(mb), mb is None)
+            if k_ in seen_b:
+                continue
+            seen_b.add(k_)
+            if mb is None:
+                rep.require(False, f"{q}: which table is copied ({show(b_, 50)}) cannot be decided [C18-COLS]")
+            else:
+                rep.ob("C18-COLS", q, not mb, "the table that is copied is the one the caller passed (df, or df_old when that parameter is used)", where_of(r.P, s.func, s.func.node),
+                       expected="(df_old if df_old is not None else df).copy()", found=show(b_, 70) + (f" [differs when {mb[0][0]}]" if mb else ""), key=f"copied table {show(b_, 30)}")
+    rep.require(bool(bases), f"{q}: no .copy() of the caller's table found on the result path; cannot decide [C18-COLS]")
     # the documented defaults (a call that names no option standardises, for humans, functional genes at gene level, lenient CDR3 rule, with warnings)
     DEFAULTS = {"standardize": True, "species": "HomoSapiens", "tcr_enforce_functional": True, "tcr_precision": "gene", "mhc_precision": "gene",
                 "strict_cdr3_standardization": False, "suppress_warnings": False, "col_mapper": None, "df": None, "df_old": None}
